@@ -165,7 +165,7 @@ def main(argv=None):
         rp = replay_native(e["witness"]["ob"], e["witness"]["decisions"])
         replays_done += 1
         if rp.get("reproduced") and rp.get("signature") == e["signature"]:
-            known_lines.append("KNOWN-FINDING: property=%s %s" % (prop, e["what"]))
+            known_lines.append("KNOWN-FINDING: property=%s %s [%s] %s" % (prop, e.get("id", ""), e["signature"].split("|")[1], e["what"]))
         else:
             e["stale"] = True
 
